@@ -102,6 +102,9 @@ func goid() uint64 {
 
 // Event is the process-wide hook (and the entry used by the harness for its own events).
 func (r *Recorder) Event(kind int, a, b uint64) {
+	if kind < 200 || kind > 299 {
+		return // other checks' event points (e.g. the minSeq report of verif_export_db.go)
+	}
 	g := goid()
 	var sleep time.Duration
 	r.mu.Lock()
